@@ -77,6 +77,17 @@ def run(pid, tier, seed):
                     if isinstance(n, ast.Assign) and not all(isinstance(n.value, ast.Constant) for _ in [0]) \
                             and not (isinstance(n.value, (ast.Constant, ast.Tuple)) or ast.unparse(n.value).startswith("bool(")):
                         syn(res, "%s/no-module-level-state:%s" % (rel, ast.unparse(n.targets[0])), False, ast.unparse(n)[:80])
+    # no id()-keyed state: id() of a node is meaningless in a copy, so it may only be used transiently (the duplicate check)
+    idsites = []
+    for rel, cls in CLASSES:
+        try:
+            for (nm, role), fi in frontend.members(rel, cls).items():
+                if any(isinstance(n, ast.Call) and isinstance(n.func, ast.Name) and n.func.id == "id" for st in fi.body for n in ast.walk(st)):
+                    idsites.append("%s.%s" % (cls, fi.name))
+        except frontend.StructError:
+            pass
+    syn(res, "anytree/node/**:id()-is-used-only-by-the-transient-duplicate-check", set(idsites) <= {"NodeMixin.__check_children", "LightNodeMixin.__check_children"},
+        "id() used in %s" % sorted(set(idsites)))
     bad_writers = [w for w in writers if w.split(".")[-1] not in WRITERS or "mixin.py" not in w]
     syn(res, "anytree/**:bookkeeping-attributes-written-only-by-the-mixins' mutators", not bad_writers,
         "writers: %s" % sorted(set(writers)))
